@@ -201,11 +201,29 @@ func init() {
 						jarX := vpNewJar()
 						if _, err := wc.login(jarX, "alice", ""); err == nil && wc.ageSessionOpt(jarX, 2*time.Hour, true) == nil {
 							cookieX := jarX.header()
-							r1 := wc.do(vpReq{Target: "/private", Cookie: cookieX})
-							r2 := wc.do(vpReq{Target: "/private", Cookie: cookieX})
-							obs["expiredServed"], obs["expiredReplayServed"] = r1.UpHits > 0, r2.UpHits > 0
-							if r1.Panic != "" || r2.Panic != "" {
-								obs["panic"] = true
+							// (every request is given eight seconds: one that is never answered is an observation, not a dead driver)
+							timed := func(req vpReq) *vpResp {
+								ch := make(chan *vpResp, 1)
+								go func() { ch <- wc.do(req) }()
+								select {
+								case r := <-ch:
+									return r
+								case <-time.After(8 * time.Second):
+									return nil
+								}
+							}
+							r1 := timed(vpReq{Target: "/private", Cookie: cookieX})
+							var r2 *vpResp
+							if r1 != nil {
+								r2 = timed(vpReq{Target: "/private", Cookie: cookieX})
+							}
+							if r1 == nil || r2 == nil {
+								obs["answeredAgain"] = false // a presentation of the cookie that is never answered
+							} else {
+								obs["expiredServed"], obs["expiredReplayServed"] = r1.UpHits > 0, r2.UpHits > 0
+								if r1.Panic != "" || r2.Panic != "" {
+									obs["panic"] = true
+								}
 							}
 						}
 						wc.close()
@@ -219,7 +237,9 @@ func init() {
 			go func() { w.get(jar, "/private"); ans <- true }()
 			select {
 			case <-ans:
-				obs["answeredAgain"] = true
+				if _, already := obs["answeredAgain"]; !already {
+					obs["answeredAgain"] = true
+				}
 			case <-time.After(8 * time.Second):
 				obs["answeredAgain"] = false
 			}
